@@ -252,36 +252,30 @@ Arguments NoEnc {T}.
 Definition mem_N (k : N) (l : list N) : bool := existsb (N.eqb k) l.
 
 (* one successful tool run: the FIRST EncryptedData in document order is replaced by its plaintext *)
-Fixpoint open_first (keys : list N) (pol : policy) (t : dtree) : ores dtree :=
-  let open_list := fix open_list (l : list dtree) : ores (list dtree) :=
+Definition open_list_with (f : dtree -> ores dtree) : list dtree -> ores (list dtree) :=
+  fix go (l : list dtree) : ores (list dtree) :=
     match l with
     | [] => NoEnc
-    | x :: r => match open_first keys pol x with
+    | x :: r => match f x with
                 | Opened x' => Opened (x' :: r)
                 | Stuck => Stuck
-                | NoEnc => match open_list r with Opened r' => Opened (x :: r') | Stuck => Stuck | NoEnc => NoEnc end
+                | NoEnc => match go r with Opened r' => Opened (x :: r') | Stuck => Stuck | NoEnc => NoEnc end
                 end
-    end in
+    end.
+Fixpoint open_first (keys : list N) (pol : policy) (t : dtree) : ores dtree :=
   match t with
   | DEnc k p => if mem_N k keys then Opened p else match pol with PFail => Stuck | PSkip => NoEnc end
   | DAsrt a d adv ext =>
-      match open_list adv with
+      match open_list_with (open_first keys pol) adv with
       | Opened adv' => Opened (DAsrt a true adv' ext)
       | Stuck => Stuck
-      | NoEnc => match open_list ext with Opened ext' => Opened (DAsrt a true adv ext') | Stuck => Stuck | NoEnc => NoEnc end
+      | NoEnc => match open_list_with (open_first keys pol) ext with
+                 | Opened ext' => Opened (DAsrt a true adv ext') | Stuck => Stuck | NoEnc => NoEnc end
       end
-  | DEA kids => match open_list kids with Opened k' => Opened (DEA k') | Stuck => Stuck | NoEnc => NoEnc end
-  | DOther kids => match open_list kids with Opened k' => Opened (DOther k') | Stuck => Stuck | NoEnc => NoEnc end
+  | DEA kids => match open_list_with (open_first keys pol) kids with Opened k' => Opened (DEA k') | Stuck => Stuck | NoEnc => NoEnc end
+  | DOther kids => match open_list_with (open_first keys pol) kids with Opened k' => Opened (DOther k') | Stuck => Stuck | NoEnc => NoEnc end
   end.
-Fixpoint open_list (keys : list N) (pol : policy) (l : list dtree) : ores (list dtree) :=
-  match l with
-  | [] => NoEnc
-  | x :: r => match open_first keys pol x with
-              | Opened x' => Opened (x' :: r)
-              | Stuck => Stuck
-              | NoEnc => match open_list keys pol r with Opened r' => Opened (x :: r') | Stuck => Stuck | NoEnc => NoEnc end
-              end
-  end.
+Definition open_list (keys : list N) (pol : policy) : list dtree -> ores (list dtree) := open_list_with (open_first keys pol).
 
 (* ---- pysaml2's parsed view of the text ---- *)
 Definition is_enc (t : dtree) : bool := match t with DEnc _ _ => true | _ => false end.
